@@ -2,6 +2,7 @@
     Theorem-only file.  Model and spec: Tree/Delete.v; proofs: Tree/DeleteProofs.v. *)
 From Coq Require Import ZArith List Bool Arith Strings.Byte.
 From YV Require Import Val.Model Tree.Schema Tree.Editor Tree.Merge Tree.EditorProofs Tree.Delete Tree.DeleteProofs.
+From YV Require Import Tree.InsertUpdateProofs Tree.KeyEquiv Tree.KeysUniqueProofs Tree.DeleteSpecProofs Tree.DeleteExamples.
 Import ListNotations.
 
 Theorem C18_delete_exact : forall kids tgt i r,
@@ -48,3 +49,97 @@ Example C18_example :
   apply_op kids [Some (DList [e 1 10; e 2 20; e 3 30])%Z] (OpDeleteRow 0 (key 2%Z)) = Ok [Some (DList [e 1 10; e 3 30])%Z]
   /\ keys_unique_content kids [Some (DList [e 1 10; e 3 30])%Z] = true.
 Proof. vm_compute. split; reflexivity. Qed.
+
+(** * key uniqueness over every history (proofs: Tree/KeyEquiv.v, Tree/KeysUniqueProofs.v)
+
+    [C18_keys_unique_full_statement] as written above is FALSE: a key leaf with a schema default lets
+    an upsert create two rows with the default as key ([C18_keys_unique_full_statement_false];
+    data: Tree/DeleteExamples.v [default_key_breaks_uniqueness]).  It holds once key positions are
+    leaves without default ([keys_ok true]) and the data the operations bring is shaped like the
+    schema ([op_src_ok]); neither distinct source keys nor well-formed key values are needed. *)
+Theorem C18_keys_unique_full_statement_false : ~ C18_keys_unique_full_statement.
+Proof. exact unique_history_needs_no_key_default. Qed.
+Print Assumptions C18_keys_unique_full_statement_false.
+
+Theorem C18_keys_unique_partial : forall kids ops tgt r,
+  forallb wf_schema kids = true -> forallb choice_free kids = true -> forallb (keys_ok true) kids = true ->
+  forallb (op_src_ok kids) ops = true ->
+  shaped_kids shaped kids tgt = true -> keys_unique_content kids tgt = true ->
+  fold_left (fun acc o => match acc with Ok t => apply_op kids t o | Err e => Err e end) ops (Ok tgt) = Ok r ->
+  shaped_kids shaped kids r = true /\ keys_unique_content kids r = true.
+Proof. exact keys_unique_history. Qed.
+Print Assumptions C18_keys_unique_partial.
+
+(** per operation *)
+Theorem C18_op_preserves_keys_unique : forall kids,
+  forallb wf_schema kids = true -> forallb choice_free kids = true -> forallb (keys_ok true) kids = true ->
+  forall tgt o r, op_src_ok kids o = true ->
+  shaped_kids shaped kids tgt = true /\ keys_unique_content kids tgt = true ->
+  apply_op kids tgt o = Ok r ->
+  shaped_kids shaped kids r = true /\ keys_unique_content kids r = true.
+Proof. exact apply_op_preserves. Qed.
+Print Assumptions C18_op_preserves_keys_unique.
+
+(** the keyed deep merge never creates a duplicate (whatever the source's keys) *)
+Theorem C18_merge_keeps_keys_unique : forall s, wf_schema s = true -> keys_ok true s = true ->
+  forall src tgt c, shaped s src = true -> shaped s tgt = true -> keys_unique s tgt = true ->
+  keys_unique s (merge_one s src tgt c) = true.
+Proof. exact merge_unique. Qed.
+Print Assumptions C18_merge_keeps_keys_unique.
+
+(** key equality (val.Equal per key leaf) is symmetric and transitive on all values *)
+Theorem C18_key_equality_sym : forall a b, key_eqb a b = true -> key_eqb b a = true.
+Proof. exact key_eqb_sym. Qed.
+Print Assumptions C18_key_equality_sym.
+Theorem C18_key_equality_trans : forall a b c, key_eqb a b = true -> key_eqb b c = true -> key_eqb a c = true.
+Proof. exact key_eqb_trans. Qed.
+Print Assumptions C18_key_equality_trans.
+
+(** * model = specification, per operation (proofs: Tree/DeleteSpecProofs.v); each side condition of
+      [op_spec_ok] is needed: Tree/DeleteExamples.v [keyless_delete_differs],
+      [replace_row_other_key_differs], [insert_duplicate_rows_differs],
+      [replace_kid_sibling_differs], [replace_kid_duplicate_rows_differs] *)
+Theorem C18_model_is_spec : forall kids,
+  forallb wf_schema kids = true -> forallb choice_free kids = true -> forallb (keys_ok true) kids = true ->
+  forall tgt, shaped_kids shaped kids tgt = true -> keys_unique_content kids tgt = true ->
+  forall o, op_spec_ok kids o = true -> apply_op kids tgt o = spec_op kids tgt o.
+Proof. exact apply_op_is_spec. Qed.
+Print Assumptions C18_model_is_spec.
+
+Theorem C18_delete_entry_is_filter : forall keys key rows,
+  rows_unique keys rows = true -> key_usable key = true ->
+  remove_row keys key rows = filter (fun r => negb (key_eqb (row_key keys r) key)) rows.
+Proof. exact remove_row_is_filter. Qed.
+Print Assumptions C18_delete_entry_is_filter.
+
+Theorem C18_delete_entries_is_filter : forall keys ks rows,
+  rows_unique keys rows = true -> forallb key_usable ks = true ->
+  fold_left (fun acc k => remove_row keys k acc) ks rows
+  = filter (fun r => negb (existsb (fun k => key_eqb (row_key keys r) k) ks)) rows.
+Proof. exact remove_rows_is_filter. Qed.
+Print Assumptions C18_delete_entries_is_filter.
+
+(** * every entry with a usable key is the one found under its key *)
+Theorem C18_entry_found_under_its_key : forall m keys row rows p r,
+  keys_ok false (SList m keys row) = true -> shaped (SList m keys row) (DList rows) = true ->
+  keys_unique (SList m keys row) (DList rows) = true ->
+  nth_error rows p = Some r -> key_usable (row_key keys r) = true ->
+  find_row keys (row_key keys r) rows 0 = Some p.
+Proof. exact entry_found_under_its_key. Qed.
+Print Assumptions C18_entry_found_under_its_key.
+
+Theorem C18_entry_found_under_its_key_rows : forall keys rows p r i,
+  rows_unique keys rows = true -> nth_error rows p = Some r ->
+  key_usable (row_key keys r) = true -> key_eqb (row_key keys r) (row_key keys r) = true ->
+  find_row keys (row_key keys r) rows i = Some (i + p)%nat.
+Proof. exact find_row_unique. Qed.
+Print Assumptions C18_entry_found_under_its_key_rows.
+
+(** the hypotheses above hold together on a history using all seven operations *)
+Example C18_hypotheses_satisfiable :
+  forallb wf_schema xkids = true /\ forallb choice_free xkids = true /\ forallb (keys_ok true) xkids = true /\
+  shaped_kids shaped xkids xtgt = true /\ keys_unique_content xkids xtgt = true /\
+  forallb (op_src_ok xkids) xops = true /\ forallb (op_spec_ok xkids) xops = true /\
+  xrun xkids xops xtgt = Ok [Some (DList [xe 4 40; xe 2 22; xe 6 60; xe 7 70]%Z); None] /\
+  keys_unique_content xkids [Some (DList [xe 4 40; xe 2 22; xe 6 60; xe 7 70]%Z); None] = true.
+Proof. vm_compute. repeat split; reflexivity. Qed.
